@@ -584,6 +584,34 @@ def deser_chain_cases(rng, tier, n_classes):
     return cases
 
 
+def nested_hook_cases(rng, tier, n_classes):
+    """hooks of NESTED classes, tied to the model: an Outer class holds instances of a hooked Inner class bare, in an
+    Array, a Map, a Tuple and behind Optional; arguments and chain overrides carry Inner instances (products of the real,
+    hooked constructor); the Lean `allInst` predicate (Spec/NestedHooks.lean) is evaluated on the instance every chain
+    of entry points returns (chainH_nested_hooks)"""
+    cases = []
+    for ci in range(n_classes):
+        vg = gen.ValGen(rng)
+        inner = {"k": "struct", "name": f"NIn{ci}", "required": ["lo"], "addl": rng.random() < 0.3,
+                 "fields": [["lo", {"k": "integer"}], ["hi", {"k": "integer", "min": [0, 1]}], ["tag", {"k": "string"}]]}
+        shapes = [["f", inner], ["items", {"k": "seqOf", "item": inner}], ["m", {"k": "mapOf", "key": {"k": "string"}, "val": inner}],
+                  ["t", {"k": "tuplePos", "items": [inner, {"k": "integer"}]}], ["opt", {"k": "anyOf", "fields": [inner, {"k": "noneF"}]}],
+                  ["deep", {"k": "seqOf", "item": {"k": "mapOf", "key": {"k": "string"}, "val": inner}}]]
+        fields = [json.loads(json.dumps(x)) for x in rng.sample(shapes, rng.randint(1, 3))] + [["n", {"k": "integer"}]]
+        cls = {"k": "struct", "name": f"NOut{ci}", "required": [fields[0][0]], "addl": False, "fields": fields}
+        fix_accepts(cls)
+        hooks = [[inner["name"], [["lo", rng.choice([1, 2, 3, 5])]]]]
+        for _ in range(4):
+            kw = vg.valid_kw(cls)
+            if kw is gen.NOVALUE:
+                continue
+            chain = gen_chain(rng, vg, cls, rng.randint(1, 3 if tier == "quick" else 5))
+            case = {"suite": "construct", "cls": cls, "kw": kw, "stream": "nested-hook", "hooksByClass": hooks, "chain": chain, "re": None}
+            case["re"] = gen.re_table(cls, kw, chain)
+            cases.append(case)
+    return cases
+
+
 def transplant_cases(rng, tier, n_classes):
     """the same type-directed cases, but every collection among the ARGUMENTS (constructor keywords and chain
     overrides, at every depth) is first stored in a field of ANOTHER instance whose declaration is as lax as can be
@@ -726,6 +754,9 @@ def run_impl(case):
     if case.get("hook"):
         from . import mutate as M
         M.install_hook(cls, case["hook"], ctx)
+    for cname, hs in case.get("hooksByClass") or []:
+        from . import mutate as M
+        M.install_hook(ctx.classes[cname], hs, ctx)
     try:
         kw = {k: dump.load_value(v, ctx) for k, v in case["kw"]}
     except Exception as e:
@@ -791,6 +822,8 @@ def line(case, impl):
     l = {"suite": "construct", "cls": impl.get("cls_actual", case["cls"]), "kw": impl.get("kw_actual", case["kw"]), "re": case.get("re", [])}
     if case.get("hook"):
         l["hook"] = case["hook"]
+    if case.get("hooksByClass"):
+        l["hooksByClass"] = case["hooksByClass"]
     if impl.get("decs"):
         l["decs"] = impl["decs"]
         l["decParse"] = impl["dec_parse"]
